@@ -490,8 +490,11 @@ impl Driver {
                     return Err(("after the script a gossip round does not contact the seed".into(), "round-skipped-the-seed".into()));
                 }
                 t.inc("live_probes_passed");
-                // and a shutdown completes
+                // and a shutdown completes — requested right behind a user gossip command, without
+                // letting the loop run in between (both commands are queued when it next looks)
                 if let Some(h) = self.handle.take() {
+                    let _ = h.gossip(peer_id().addr);
+                    t.inc("shutdowns_queued_behind_a_gossip_command");
                     match bounded(h.shutdown()).await {
                         Some(Ok(())) => t.inc("shutdowns_completed"),
                         Some(Err(e)) => return Err((format!("graceful shutdown returned an error: {e}"), "shutdown-error".into())),
@@ -1198,7 +1201,7 @@ pub fn run_c17(tier: Tier, started: Instant) -> Vec<Part> {
 
 fn scripts(property: &'static str, depth: usize, tier: Tier, started: Instant) -> Part {
     let mut part = Part::new(&format!("server/scripts(len<={depth})"));
-    part.rule = format!("the real gossip server (spawn_chitchat) over a scripted Transport/Socket on a paused current-thread runtime; every script of length <= {depth} over {{next send ok / error / blocks until released, receive valid SYN / SYN-ACK / ACK / foreign-cluster SYN, fatal receive error, delay of one gossip interval, user takes the state lock, user gossip command, shutdown request, message whose processing panics (catch-up callback)}}; the driver makes one thing ready at a time and yields until the server is quiescent; after each script closing probes check: loop alive (termination watcher pending, valid SYN answered by a SYN-ACK, a gossip interval raises the heartbeat and attempts a SYN to every target including the configured seed even when an earlier send of the round failed, shutdown completes) or, after a fatal error / panic, termination reported through the watcher and nothing sent afterwards; user lock always granted within {YIELD_BOUND} yields, also while a send is blocked; non-trivial = scripts containing a fault (send error, blocked send, fatal error, panic)");
+    part.rule = format!("the real gossip server (spawn_chitchat) over a scripted Transport/Socket on a paused current-thread runtime; every script of length <= {depth} over {{next send ok / error / blocks until released, receive valid SYN / SYN-ACK / ACK / foreign-cluster SYN, fatal receive error, delay of one gossip interval, user takes the state lock, user gossip command, shutdown request, message whose processing panics (catch-up callback)}}; the driver makes one thing ready at a time and yields until the server is quiescent; after each script closing probes check: loop alive (termination watcher pending, valid SYN answered by a SYN-ACK, a gossip interval raises the heartbeat and attempts a SYN to every target including the configured seed even when an earlier send of the round failed, a shutdown requested right behind a user gossip command completes) or, after a fatal error / panic, termination reported through the watcher and nothing sent afterwards; user lock always granted within {YIELD_BOUND} yields, also while a send is blocked; non-trivial = scripts containing a fault (send error, blocked send, fatal error, panic)");
     part.bounds = json!({"alphabet": ALPHABET.iter().map(|e| e.name()).collect::<Vec<_>>(), "depth": depth, "yield_bound": YIELD_BOUND});
     let deadline = started + Duration::from_secs(tier.pick(50, 3000));
     let capped = AtomicBool::new(false);
